@@ -12,7 +12,7 @@ func refKind(t int) directive.Enumeration {
 		return directive.Jsight
 	case tInfo:
 		return directive.Info
-	case tTitle:
+	case tTitle, tTitleBlank:
 		return directive.Title
 	case tVersion:
 		return directive.Version
@@ -28,8 +28,24 @@ func refKind(t int) directive.Enumeration {
 		return directive.Post
 	case tRequestAny:
 		return directive.Request
-	case tResp200, tResp404:
+	case tResp200, tResp404, tRespBare, tRespArr:
 		return directive.HTTPResponseCode
+	case tHeaders:
+		return directive.Headers
+	case tEnumNoName:
+		return directive.Enum
+	case tServerNoName:
+		return directive.Server
+	case tTypeNoName:
+		return directive.Type
+	case tTagNoName:
+		return directive.TAG
+	case tPasteNoName:
+		return directive.Paste
+	case tTagsNoName:
+		return directive.Tags
+	case tMethodNoName:
+		return directive.Method
 	case tBodyAny:
 		return directive.Body
 	case tTypeAny:
@@ -101,7 +117,7 @@ func refResolveLines(lines []refLine) bool {
 		placed := false
 		for c != -1 {
 			admits := refKind(lines[c].t).IsAllowedForDirectiveContext(k)
-			if admits && lines[i].t == tGetPath && lines[c].t == tURL {
+			if admits && lines[i].t == tGetPath && refKind(lines[c].t) == directive.URL {
 				admits = false
 			}
 			if admits {
@@ -286,11 +302,21 @@ func refCatalogSig(lines []refLine) []string {
 				body = append(body, " request body format=binary notation=any")
 			}
 			for j := range lines {
-				if lines[j].parent == i && lines[j].t == tResp200 {
-					body = append(body, " response 200 annotation=ok body format=binary notation=any")
+				if lines[j].parent != i {
+					continue
 				}
-				if lines[j].parent == i && lines[j].t == tResp404 {
-					body = append(body, " response 404 annotation= body format=binary notation=empty")
+				hdr := ""
+				if refChild(lines, j, tHeaders) >= 0 {
+					hdr = " headers"
+				}
+				switch lines[j].t {
+				case tResp200:
+					body = append(body, " response 200 annotation=ok body format=binary notation=any"+hdr)
+				case tResp404:
+					body = append(body, " response 404 annotation= body format=binary notation=empty"+hdr)
+				case tRespBare:
+					// the body comes from its Body child ("Body any")
+					body = append(body, " response 201 annotation= body format=binary notation=any"+hdr)
 				}
 			}
 		}
